@@ -2,18 +2,24 @@
 // state, the helpers rol/ff/gg/hh and the body of processChunk — translated statement by statement into
 // Lean `UInt32` definitions (lean/Manticore/Gen/Md4Kernel.lean).
 //
-// The translator knows exactly the shapes listed below and aborts with file:line on anything else:
+// Constants, New() and the helpers are recognised by shape (listed below; anything else aborts with
+// file:line).  The body of processChunk is not matched against one spelling: it is RUN by a partial
+// evaluator (md4_peval.go — constant folding, loop unrolling, package-level and local tables, registers in
+// named locals or in an array, function values resolved to the helpers, the spellings of the word load and of
+// the feed-forward), and the straight-line step sequence it performs is written out in one canonical form.
+// The 48 unrolled assignments, three loops over tables and one double loop over a table of rounds therefore
+// regenerate the same text; a changed shift, word index, bound, argument order, register rotation or helper
+// body regenerates a different one (or is refused).
 //
-//	const name = <int literal>                                  (chunkSize, init0..init3)
+//	const name [T] = <int literal | expression over literals and earlier constants>   (chunkSize, init0..init3, …)
 //	func New: md4.state[k] = <const name>   for k = 0..3        (nothing else may touch the state)
 //	func f(p1, …, pn uint32) uint32 { return <expr> }           expr over + - ^ & | << >>, ( ), params,
 //	                                                            int literals, calls of such helpers
-//	func (md4 *MD4) processChunk(chunk []byte):
-//	    var x [16]uint32
-//	    for i := 0; i < 16; i++ { x[i] = binary.LittleEndian.Uint32(chunk[i*4:]) }
-//	    a, b, c, d := md4.state[0], md4.state[1], md4.state[2], md4.state[3]
-//	    v = helper(v…, x[k], <shift literal>)                   any number of these
-//	    md4.state[k] += v                                       k = 0..3, each once, in order
+//	func (md4 *MD4) processChunk(chunk []byte):                 whatever md4_peval.go can reduce to
+//	    v = helper(<register | md4.state[k] on entry | message word | constant>…)   any number of these steps,
+//	    md4.state[k] = md4.state[j] on entry + v  (or v)        as final values of the four state words
+//	  emitted over the canonical register names a, b, c, d (= md4.state[0..3] on entry) whatever the source
+//	  calls them.
 //
 // Go and Lean agree on `x << s` / `x >> s` for uint32 only when 0 <= s < 32 (Go gives 0 for s >= 32,
 // Lean reduces s mod 32), so every shift amount reaching a shift operator is checked to be a literal
@@ -51,6 +57,78 @@ func intLit(e ast.Expr) (uint64, bool) {
 	}
 	v, err := strconv.ParseUint(strings.ReplaceAll(bl.Value, "_", ""), 0, 64)
 	return v, err == nil
+}
+
+// constExpr evaluates the value of a package-level constant: an integer literal, an earlier constant of the file,
+// or + - * / % << >> & | over such, with every intermediate result in [0, 2^32) (no negative numbers, no wrap-
+// around: inside that range untyped and typed Go constant arithmetic agree).  `const chunkSize = 64` and
+// `const chunkSize = 16 * 4` therefore give the same model; iota and anything else are refused.
+func (m *md4x) constExpr(e ast.Expr) (uint64, error) {
+	switch v := e.(type) {
+	case *ast.ParenExpr:
+		return m.constExpr(v.X)
+	case *ast.BasicLit:
+		n, ok := intLit(v)
+		if !ok || n > 0xFFFFFFFF {
+			return 0, m.errf(e, "not an integer literal below 2^32")
+		}
+		return n, nil
+	case *ast.Ident:
+		if n, ok := m.consts[v.Name]; ok {
+			return n, nil
+		}
+		return 0, m.errf(e, "%s is not an earlier constant of the file", v.Name)
+	case *ast.BinaryExpr:
+		a, err := m.constExpr(v.X)
+		if err != nil {
+			return 0, err
+		}
+		b, err := m.constExpr(v.Y)
+		if err != nil {
+			return 0, err
+		}
+		var r uint64
+		switch v.Op {
+		case token.ADD:
+			r = a + b
+		case token.SUB:
+			if b > a {
+				return 0, m.errf(e, "negative constant")
+			}
+			r = a - b
+		case token.MUL:
+			r = a * b
+		case token.QUO, token.REM:
+			if b == 0 {
+				return 0, m.errf(e, "division by zero")
+			}
+			if v.Op == token.QUO {
+				r = a / b
+			} else {
+				r = a % b
+			}
+		case token.SHL, token.SHR:
+			if b > 31 {
+				return 0, m.errf(e, "shift amount above 31")
+			}
+			if v.Op == token.SHL {
+				r = a << b
+			} else {
+				r = a >> b
+			}
+		case token.AND:
+			r = a & b
+		case token.OR:
+			r = a | b
+		default:
+			return 0, m.errf(e, "operator %s in a constant not understood", v.Op)
+		}
+		if r > 0xFFFFFFFF {
+			return 0, m.errf(e, "constant result does not fit 32 bits")
+		}
+		return r, nil
+	}
+	return 0, m.errf(e, "constant expression shape %T not understood", e)
 }
 
 // expr translates a pure uint32 expression; `params` are the identifiers in scope.
@@ -190,6 +268,10 @@ func (m *md4x) shiftCheck(name string, bind map[string]uint64, at ast.Node) erro
 	return err
 }
 
+func parseGoFile(fset *token.FileSet, path string) (*ast.File, error) {
+	return parser.ParseFile(fset, path, nil, 0)
+}
+
 func selIs(e ast.Expr, recv, field string) bool {
 	s, ok := e.(*ast.SelectorExpr)
 	if !ok || s.Sel.Name != field {
@@ -212,7 +294,7 @@ func stateIndex(e ast.Expr, recv string) (int, bool) {
 func md4Kernel(repo string) (string, any, error) {
 	path := filepath.Join(repo, "crypto/md4/md4.go")
 	m := &md4x{fset: token.NewFileSet(), consts: map[string]uint64{}, helpers: map[string]*ast.FuncDecl{}}
-	file, err := parser.ParseFile(m.fset, path, nil, 0)
+	file, err := parseGoFile(m.fset, path)
 	if err != nil {
 		return "", nil, err
 	}
@@ -225,13 +307,18 @@ func md4Kernel(repo string) (string, any, error) {
 			}
 			for _, sp := range v.Specs {
 				vs := sp.(*ast.ValueSpec)
-				if vs.Type != nil || len(vs.Names) != len(vs.Values) {
-					return "", nil, m.errf(vs, "const shape not understood (typed or iota constants)")
+				if len(vs.Names) != len(vs.Values) {
+					return "", nil, m.errf(vs, "const shape not understood (iota / implicit repetition)")
+				}
+				if vs.Type != nil {
+					if id, ok := vs.Type.(*ast.Ident); !ok || !(id.Name == "int" || id.Name == "uint32" || id.Name == "uint64" || id.Name == "uint" || id.Name == "int64") {
+						return "", nil, m.errf(vs, "const shape not understood (type is not a 32/64-bit integer type)")
+					}
 				}
 				for i, n := range vs.Names {
-					val, ok := intLit(vs.Values[i])
-					if !ok {
-						return "", nil, m.errf(vs.Values[i], "const %s is not an integer literal", n.Name)
+					val, err := m.constExpr(vs.Values[i])
+					if err != nil {
+						return "", nil, fmt.Errorf("const %s: %w", n.Name, err)
 					}
 					m.consts[n.Name] = val
 				}
@@ -242,8 +329,17 @@ func md4Kernel(repo string) (string, any, error) {
 				newFn = v
 			case v.Name.Name == "processChunk" && v.Recv != nil:
 				pcFn = v
-			case v.Recv == nil && v.Type.Results != nil && len(v.Type.Results.List) == 1:
-				if id, ok := v.Type.Results.List[0].Type.(*ast.Ident); ok && id.Name == "uint32" {
+			case v.Recv == nil && v.Type.Results != nil && len(v.Type.Results.List) == 1 && v.Body != nil:
+				// a uint32 HELPER: all parameters uint32, one unnamed uint32 result, the body one return statement.
+				// Any other function is not translated; processChunk may still call it — the evaluator then runs
+				// its body (md4_peval.go, N8).
+				if id, ok := v.Type.Results.List[0].Type.(*ast.Ident); ok && id.Name == "uint32" && len(v.Type.Results.List[0].Names) == 0 {
+					if _, err := m.helperParams(v); err != nil || len(v.Body.List) != 1 {
+						continue
+					}
+					if _, ok := v.Body.List[0].(*ast.ReturnStmt); !ok {
+						continue
+					}
 					m.helpers[v.Name.Name] = v
 					m.order = append(m.order, v.Name.Name)
 				}
@@ -368,221 +464,52 @@ func md4Kernel(repo string) (string, any, error) {
 		return nil
 	}
 
-	// ---- processChunk
-	recv := pcFn.Recv.List[0].Names[0].Name
-	if len(pcFn.Type.Params.List) != 1 || len(pcFn.Type.Params.List[0].Names) != 1 {
-		return "", nil, m.errf(pcFn, "processChunk: expected one parameter")
-	}
-	chunk := pcFn.Type.Params.List[0].Names[0].Name
-	body := pcFn.Body.List
-	if len(body) < 4 {
-		return "", nil, m.errf(pcFn, "processChunk: body too short")
-	}
-	// var x [16]uint32
-	xName := ""
-	if ds, ok := body[0].(*ast.DeclStmt); ok {
-		if gd, ok := ds.Decl.(*ast.GenDecl); ok && gd.Tok == token.VAR && len(gd.Specs) == 1 {
-			vs := gd.Specs[0].(*ast.ValueSpec)
-			if at, ok := vs.Type.(*ast.ArrayType); ok && len(vs.Names) == 1 && len(vs.Values) == 0 {
-				n, ok1 := intLit(at.Len)
-				id, ok2 := at.Elt.(*ast.Ident)
-				if ok1 && ok2 && n == 16 && id.Name == "uint32" {
-					xName = vs.Names[0].Name
-				}
-			}
-		}
-	}
-	if xName == "" {
-		return "", nil, m.errf(body[0], "processChunk: expected `var x [16]uint32`")
-	}
-	// for i := 0; i < 16; i++ { x[i] = binary.LittleEndian.Uint32(chunk[i*4:]) }
-	okLoop := false
-	if fs, ok := body[1].(*ast.ForStmt); ok {
-		func() {
-			in, ok := fs.Init.(*ast.AssignStmt)
-			if !ok || in.Tok != token.DEFINE || len(in.Lhs) != 1 {
-				return
-			}
-			iv, ok := in.Lhs[0].(*ast.Ident)
-			if z, ok2 := intLit(in.Rhs[0]); !ok || !ok2 || z != 0 {
-				return
-			}
-			cond, ok := fs.Cond.(*ast.BinaryExpr)
-			if !ok || cond.Op != token.LSS {
-				return
-			}
-			if ci, ok := cond.X.(*ast.Ident); !ok || ci.Name != iv.Name {
-				return
-			}
-			if n, ok := intLit(cond.Y); !ok || n != 16 {
-				return
-			}
-			inc, ok := fs.Post.(*ast.IncDecStmt)
-			if !ok || inc.Tok != token.INC {
-				return
-			}
-			if ii, ok := inc.X.(*ast.Ident); !ok || ii.Name != iv.Name {
-				return
-			}
-			if len(fs.Body.List) != 1 {
-				return
-			}
-			as, ok := fs.Body.List[0].(*ast.AssignStmt)
-			if !ok || as.Tok != token.ASSIGN || len(as.Lhs) != 1 {
-				return
-			}
-			lx, ok := as.Lhs[0].(*ast.IndexExpr)
-			if !ok {
-				return
-			}
-			if a, ok := lx.X.(*ast.Ident); !ok || a.Name != xName {
-				return
-			}
-			if a, ok := lx.Index.(*ast.Ident); !ok || a.Name != iv.Name {
-				return
-			}
-			call, ok := as.Rhs[0].(*ast.CallExpr)
-			if !ok || len(call.Args) != 1 {
-				return
-			}
-			// binary.LittleEndian.Uint32
-			s1, ok := call.Fun.(*ast.SelectorExpr)
-			if !ok || s1.Sel.Name != "Uint32" || !selIs(s1.X, "binary", "LittleEndian") {
-				return
-			}
-			sl, ok := call.Args[0].(*ast.SliceExpr)
-			if !ok || sl.High != nil || sl.Max != nil {
-				return
-			}
-			if a, ok := sl.X.(*ast.Ident); !ok || a.Name != chunk {
-				return
-			}
-			mul, ok := sl.Low.(*ast.BinaryExpr)
-			if !ok || mul.Op != token.MUL {
-				return
-			}
-			if a, ok := mul.X.(*ast.Ident); !ok || a.Name != iv.Name {
-				return
-			}
-			if n, ok := intLit(mul.Y); !ok || n != 4 {
-				return
-			}
-			okLoop = true
-		}()
-	}
-	if !okLoop {
-		return "", nil, m.errf(body[1], "processChunk: expected `for i := 0; i < 16; i++ { x[i] = binary.LittleEndian.Uint32(chunk[i*4:]) }`")
-	}
-	// a, b, c, d := md4.state[0..3]
-	as, ok := body[2].(*ast.AssignStmt)
-	if !ok || as.Tok != token.DEFINE || len(as.Lhs) != 4 || len(as.Rhs) != 4 {
-		return "", nil, m.errf(body[2], "processChunk: expected `a, b, c, d := md4.state[0], …, md4.state[3]`")
-	}
-	vars := map[string]bool{}
-	var varNames []string
-	for i := 0; i < 4; i++ {
-		id, ok1 := as.Lhs[i].(*ast.Ident)
-		k, ok2 := stateIndex(as.Rhs[i], recv)
-		if !ok1 || !ok2 || k != i || vars[id.Name] {
-			return "", nil, m.errf(as, "processChunk: expected `a, b, c, d := md4.state[0], …, md4.state[3]`")
-		}
-		if id.Name == "st" || id.Name == "x" {
-			return "", nil, m.errf(as, "processChunk: working variable named %s clashes with the generated binder names", id.Name)
-		}
-		vars[id.Name] = true
-		varNames = append(varNames, id.Name)
+	// ---- processChunk: run the body symbolically (md4_peval.go) and read the steps off the result
+	kr, err := m.evalProcessChunk(filepath.Dir(path), file, pcFn)
+	if err != nil {
+		return "", nil, err
 	}
 	var steps []string
 	var stepJSON []map[string]any
-	finals := map[int]string{}
-	for _, st := range body[3:] {
-		s, ok := st.(*ast.AssignStmt)
-		if !ok || len(s.Lhs) != 1 || len(s.Rhs) != 1 {
-			return "", nil, m.errf(st, "processChunk: statement shape not understood")
-		}
-		if s.Tok == token.ADD_ASSIGN {
-			k, ok1 := stateIndex(s.Lhs[0], recv)
-			id, ok2 := s.Rhs[0].(*ast.Ident)
-			if !ok1 || !ok2 || !vars[id.Name] || k != len(finals) {
-				return "", nil, m.errf(s, "processChunk: expected `md4.state[%d] += <a|b|c|d>`", len(finals))
-			}
-			finals[k] = id.Name
-			continue
-		}
-		if s.Tok != token.ASSIGN || len(finals) > 0 {
-			return "", nil, m.errf(s, "processChunk: statement shape not understood (or a step after the final additions)")
-		}
-		lhs, ok := s.Lhs[0].(*ast.Ident)
-		if !ok || !vars[lhs.Name] {
-			return "", nil, m.errf(s, "processChunk: assignment to something other than a, b, c, d")
-		}
-		call, ok := s.Rhs[0].(*ast.CallExpr)
-		if !ok {
-			return "", nil, m.errf(s, "processChunk: right-hand side is not a helper call")
-		}
-		fn, ok := call.Fun.(*ast.Ident)
-		if !ok || m.helpers[fn.Name] == nil {
-			return "", nil, m.errf(s, "processChunk: call of something that is not a translated uint32 helper")
-		}
-		if err := emit(fn.Name, call); err != nil {
+	for _, st := range kr.steps {
+		if err := emit(st.fn, st.call.at); err != nil {
 			return "", nil, err
 		}
-		ps, _ := m.helperParams(m.helpers[fn.Name])
-		if len(ps) != len(call.Args) {
-			return "", nil, m.errf(s, "processChunk: wrong number of arguments")
-		}
-		parts := []string{fn.Name}
+		ps, _ := m.helperParams(m.helpers[st.fn])
 		bind := map[string]uint64{}
-		js := map[string]any{"assign": lhs.Name, "fn": fn.Name}
-		for i, a := range call.Args {
-			switch v := a.(type) {
-			case *ast.Ident:
-				if !vars[v.Name] {
-					return "", nil, m.errf(a, "processChunk: argument %s is not one of a, b, c, d", v.Name)
-				}
-				parts = append(parts, v.Name)
-			case *ast.IndexExpr:
-				xa, ok1 := v.X.(*ast.Ident)
-				k, ok2 := intLit(v.Index)
-				if !ok1 || !ok2 || xa.Name != xName || k >= 16 {
-					return "", nil, m.errf(a, "processChunk: expected x[k] with a literal k < 16")
-				}
-				parts = append(parts, fmt.Sprintf("(x %d)", k))
-				js["word"] = k
-			case *ast.BasicLit:
-				n, ok := intLit(v)
-				if !ok || n > 0xFFFFFFFF {
-					return "", nil, m.errf(a, "processChunk: literal is not a uint32")
-				}
-				parts = append(parts, fmt.Sprintf("%d", n))
-				bind[ps[i]] = n
-				js["lit"] = n
-			default:
-				return "", nil, m.errf(a, "processChunk: argument shape %T not understood", a)
+		for i, a := range st.call.args {
+			if c, ok := a.(cInt); ok {
+				bind[ps[i]] = uint64(c.v)
 			}
 		}
-		if err := m.shiftCheck(fn.Name, bind, call); err != nil {
+		if err := m.shiftCheck(st.fn, bind, st.call.at); err != nil {
 			return "", nil, err
 		}
-		steps = append(steps, fmt.Sprintf("  let %s := %s", lhs.Name, strings.Join(parts, " ")))
+		js := map[string]any{"assign": regNames[st.reg], "fn": st.fn}
+		if st.word >= 0 {
+			js["word"] = uint64(st.word)
+		}
+		if st.lit >= 0 {
+			js["lit"] = uint64(st.lit)
+		}
+		steps = append(steps, fmt.Sprintf("  let %s := %s", regNames[st.reg], strings.Join(append([]string{st.fn}, st.args...), " ")))
 		stepJSON = append(stepJSON, js)
 	}
-	if len(finals) != 4 {
-		return "", nil, m.errf(pcFn, "processChunk: the four `md4.state[k] += v` additions are incomplete")
-	}
+	varNames := regNames[:]
+	finals := kr.finals
 	// helpers never called from processChunk are still emitted if they are well-formed (none expected)
 	for _, h := range m.order {
 		if !emitted[h] {
 			return "", nil, m.errf(m.helpers[h], "uint32 helper %s is not used by processChunk: code shape changed", h)
 		}
 	}
-	b.WriteString(fmt.Sprintf("\n/-- `processChunk`, %d steps in source order; `x k` is the k-th little-endian 32-bit word of the chunk\n    (the loop `x[i] = binary.LittleEndian.Uint32(chunk[i*4:])`, i = 0..15, was recognised as such). -/\n", len(steps)))
+	b.WriteString(fmt.Sprintf("\n/-- `processChunk`, %d steps in the order in which the source performs them; `x k` is the k-th little-endian\n    32-bit word of the chunk (every word load of the source was evaluated to such a word or refused; a cell of the\n    word array that is never loaded appears as the constant 0 it is in Go). -/\n", len(steps)))
 	b.WriteString("def processChunk (st : UInt32 × UInt32 × UInt32 × UInt32) (x : Nat → UInt32) : UInt32 × UInt32 × UInt32 × UInt32 :=\n")
 	for i, v := range varNames {
 		b.WriteString(fmt.Sprintf("  let %s := st.%s\n", v, []string{"1", "2.1", "2.2.1", "2.2.2"}[i]))
 	}
 	b.WriteString(strings.Join(steps, "\n") + "\n")
-	b.WriteString(fmt.Sprintf("  (st.1 + %s, st.2.1 + %s, st.2.2.1 + %s, st.2.2.2 + %s)\n\n", finals[0], finals[1], finals[2], finals[3]))
+	b.WriteString(fmt.Sprintf("  (%s, %s, %s, %s)\n\n", finals[0], finals[1], finals[2], finals[3]))
 	b.WriteString(fmt.Sprintf("def stepCount : Nat := %d\n\nend Manticore.Gen.Md4Kernel\n", len(steps)))
 	return b.String(), map[string]any{"steps": stepJSON, "init": []string{initOf[0], initOf[1], initOf[2], initOf[3]}}, nil
 }
